@@ -292,9 +292,9 @@ static inline _Bool q_ok(const Q *q) { return Q_OK_M(q); }
 
 /* ================================================================== emptyQueue (eventqueue.h:186) */
 #define CONTRACT_Q_emptyQueue \
-  __CPROVER_requires(Q_FRESH(self)) \
-  __CPROVER_assigns() \
-  __CPROVER_ensures(__CPROVER_return_value == (self->queueList.len == 0 && self->queueEmptyCounter == 0))
+  __CPROVER_requires(Q_FRESH(self) && NOLOCKS(self)) \
+  __CPROVER_assigns(self->queueListMutex.depth) \
+  __CPROVER_ensures(NOLOCKS(self) && __CPROVER_return_value == (self->queueList.len == 0 && self->queueEmptyCounter == 0))
 
 /* ================================================================== processOne (eventqueue.h:240): exactly the front event */
 #define P1_FRONT(k) (__CPROVER_old(self->queueList.w[k]) == 0 ==> (DONE_M(k) && self->freeList.w[k] >= 0))
@@ -533,24 +533,32 @@ static inline void queue_unlock_hook(Mutex *m)
 #undef MUTEX_UNLOCK
 #define MUTEX_UNLOCK(m) queue_unlock_hook(m)
 
-/* (c) observer side of the concurrent half (-DMODE_CONC): emptyQueue() with other threads running between its two
- * unlocked reads.  ghost g_w11 = state of ONE ARBITRARY event whose enqueue completed before the call:
- * 1 queued (in queueList), 2 in flight in a process/processOne call, 3 consumed (dispatch returned / taken / cleared).
- * rely R (what process, processOne, takeEvent, clearEvents, enqueue do, each shown above to respect it): the state
- * only advances; queued => queueList non-empty; in flight => queueEmptyCounter >= 1. */
+/* (c) observer side of the concurrent half (-DMODE_CONC): emptyQueue() with other threads running at every
+ * synchronisation point.  ghost g_w11 = state of ONE ARBITRARY event whose enqueue completed before the call:
+ * 1 queued (in queueList), 2 in flight in a process / processOne / processIf / processUntil call, 3 consumed (dispatch
+ * returned / taken / cleared).
+ * rely R (what the operations of the other threads do, each shown to respect it by the obligations above and the
+ * unlock hook (b)): queued => queueList non-empty; in flight => queueEmptyCounter >= 1; consumed is final;
+ * an event moves between the shared list and a processing call (1 -> 2 take-out, 2 -> 1 put-back by processIf /
+ * processUntil) only with queueListMutex held, so not while THIS thread holds it; 2 -> 3 needs no lock. */
 extern int g_w11;
 #define G11(q) ((g_w11 == 1 ==> (q)->queueList.len > 0) && (g_w11 == 2 ==> (q)->queueEmptyCounter >= 1) && g_w11 >= 1 && g_w11 <= 3)
 #ifdef MODE_CONC
 #define CONTRACT_interfere_q \
   __CPROVER_requires(G11(q)) \
-  __CPROVER_assigns(q->queueList.len, q->queueList.w, q->freeList.len, q->freeList.w, q->queueEmptyCounter, q->queueNotifyCounter, g_w11) \
-  __CPROVER_ensures(G11(q) && g_w11 >= __CPROVER_old(g_w11))
+  __CPROVER_assigns(q->queueListMutex.depth == 0: q->queueList.len, q->queueList.w) \
+  __CPROVER_assigns(q->freeList.len, q->freeList.w, q->queueEmptyCounter, q->queueNotifyCounter, g_w11) \
+  __CPROVER_ensures(G11(q) && (__CPROVER_old(g_w11) == 3 ==> g_w11 == 3)) \
+  __CPROVER_ensures(q->queueListMutex.depth == 1 ==> (g_w11 == __CPROVER_old(g_w11) || (__CPROVER_old(g_w11) == 2 && g_w11 == 3)))
 void interfere_q(Q *q) CONTRACT_interfere_q;
 #undef INTERFERE_POINT
 #define INTERFERE_POINT(s) interfere_q(s)
 #undef CONTRACT_Q_emptyQueue
 #define CONTRACT_Q_emptyQueue \
-  __CPROVER_requires(Q_FRESH(self) && G11(self)) \
-  __CPROVER_assigns(self->queueList.len, self->queueList.w, self->freeList.len, self->freeList.w, self->queueEmptyCounter, self->queueNotifyCounter, g_w11) \
+  __CPROVER_requires(Q_FRESH(self) && G11(self) && NOLOCKS(self)) \
+  __CPROVER_assigns(self->queueList.len, self->queueList.w, self->freeList.len, self->freeList.w, self->queueEmptyCounter, self->queueNotifyCounter, self->queueListMutex.depth, g_w11) \
+  __CPROVER_ensures(NOLOCKS(self)) \
   __CPROVER_ensures(__CPROVER_return_value ==> g_w11 == 3)     /* reported empty => the event has been fully consumed */
 #endif
+
+#include "notify.h"
